@@ -404,11 +404,20 @@ class VariationalWassersteinDistance(darsia.EMD):
         """
         # Define AMG solver
         self.setup_amg_options()
-        with warnings.catch_warnings():
-            warnings.filterwarnings("ignore", message="Implicit conversion of A to CSR")
-            self.linear_solver = pyamg.smoothed_aggregation_solver(
-                matrix, **self.amg_options
-            )
+        # NOTE: pyamg draws its test vectors from numpy's global random generator. Build
+        # the hierarchy from a fixed seed and leave the global random state untouched.
+        rng_state = np.random.get_state()
+        np.random.seed(0)
+        try:
+            with warnings.catch_warnings():
+                warnings.filterwarnings(
+                    "ignore", message="Implicit conversion of A to CSR"
+                )
+                self.linear_solver = pyamg.smoothed_aggregation_solver(
+                    matrix, **self.amg_options
+                )
+        finally:
+            np.random.set_state(rng_state)
 
         # Define solver options
         linear_solver_options = self.options.get("linear_solver_options", {})
@@ -442,11 +451,20 @@ class VariationalWassersteinDistance(darsia.EMD):
 
         # Define AMG preconditioner
         self.setup_amg_options()
-        with warnings.catch_warnings():
-            warnings.filterwarnings("ignore", message="Implicit conversion of A to CSR")
-            amg = pyamg.smoothed_aggregation_solver(
-                matrix, **self.amg_options
-            ).aspreconditioner(cycle="V")
+        # NOTE: pyamg draws its test vectors from numpy's global random generator. Build
+        # the hierarchy from a fixed seed and leave the global random state untouched.
+        rng_state = np.random.get_state()
+        np.random.seed(0)
+        try:
+            with warnings.catch_warnings():
+                warnings.filterwarnings(
+                    "ignore", message="Implicit conversion of A to CSR"
+                )
+                amg = pyamg.smoothed_aggregation_solver(
+                    matrix, **self.amg_options
+                ).aspreconditioner(cycle="V")
+        finally:
+            np.random.set_state(rng_state)
 
         # Define solver options
         linear_solver_options = self.options.get("linear_solver_options", {})
